@@ -477,7 +477,39 @@ func attDiffKind(got, want string) string {
 
 // the connection loop itself (classification of the buffered bytes, stage sequence) against the AttStream model:
 // valid sessions and mutations of them, every stream cut into random writes
+// headerCutSessions: a file whose name, chunk offsets and lengths contain the byte 0x7e, every chunk header cut in two
+// at several places (after 10..60 header bytes): a partially received chunk header must wait for the rest, whatever
+// bytes it contains
+func headerCutSessions(r *fw.Rng, emit func(fw.Case)) {
+	for astype := 1; astype <= 5; astype++ {
+		f := attFile{[]byte("a~b~.bin"), r.Bytes(126 + 0x7e + 40)}
+		phone := c10Phone()
+		var stream []byte
+		var headerStarts []int
+		serial := uint16(1)
+		fr := func(id uint16, body []byte) {
+			stream = append(stream, frames.Build(frames.H{ID: id, Phone: phone, Serial: serial}, body)...)
+			serial++
+		}
+		fr(0x1210, att1210(astype, []attFile{f}, "AL~", r))
+		fr(0x1211, att1211(f, 0))
+		for _, ch := range [][2]int{{0, 126}, {126, 0x7e}, {126 + 0x7e, 40}} {
+			headerStarts = append(headerStarts, len(stream))
+			stream = append(stream, attChunk(astype, f, ch[0], ch[1])...)
+		}
+		fr(0x1212, att1211(f, 0))
+		for _, k := range []int{10, 12, 17, 30, 57, 60} {
+			var cuts []string
+			for _, hs := range headerStarts {
+				cuts = append(cuts, strconv.Itoa(hs+k))
+			}
+			emit(fw.Case{Op: "astream", Args: []string{strconv.Itoa(astype), "c:" + strings.Join(cuts, "."), fw.Hex(stream)}})
+		}
+	}
+}
+
 func genC15Stream(r *fw.Rng, tier string, emit func(fw.Case)) {
+	headerCutSessions(r, emit)
 	n := 4
 	if tier == "thorough" {
 		n = 40
